@@ -142,6 +142,21 @@ def run_rules(ctx, chk):
                        '%s performs an atomic store to an unrecognised target' % path)
     chk.analysed['call_sites'] += n_sites
     chk.floor('C11.P5', 'atomic store sites inspected', n_sites, 3)
+    # ---- P6: "never returns to 0 ... when an update starts from an odd value left behind by a crashed writer":
+    # a restarted writer must take such a segment over in place, i.e. the usability probe is exactly the
+    # client open routine and that routine does not look at the generation's parity (C04.T1/T5/T8)
+    from .. import core as _core
+    if not isinstance(ctx, _core.FixtureCtx) and not getattr(chk, '_nested', False):
+        from . import C04
+        sub = type(chk)('C11', LEVEL, chk.tier)
+        sub._nested = True
+        getattr(C04, 'run_rules', C04.run)(ctx, sub)
+        n6 = 0
+        for o in sub.obs:
+            if o['rule'] in ('C04.T1', 'C04.T5', 'C04.T8', 'C04.T3') and o['nontrivial']:
+                n6 += 1
+                chk.ob('C11.P6', '%s:%s' % (o['rule'], o['key']), o['ok'], o['where'], o['detail'])
+        chk.floor('C11.P6', 'restart/takeover obligations', n6, 5)
     chk.tables['atomic_writers'] = {k: v for k, v in writers.items()}
 
 
